@@ -13,6 +13,7 @@ import (
 	"github.com/TheManticoreProject/Manticore/network/ldap"
 
 	"verif/enum"
+	"verif/mc/purity"
 	"verif/ref/refsid"
 	"verif/vf"
 )
@@ -30,6 +31,23 @@ func run(c *vf.Ctx) {
 	c.Assume("fmt/strconv decimal printing is correct; a buffer with trailing bytes may be decoded or rejected (\"\") — the property is silent; authorities >= 2^32 may print decimal (property text) or 0x%012X (MS-DTYP 2.4.2.1)")
 	sids(c)
 	dns(c)
+	histories(c)
+}
+
+// histories: both conversions are pure; all ordered pairs of calls over a small input set (verif/mc/purity),
+// including a caller that recycles its SID buffer in place for the next SID of the same length.
+func histories(c *vf.Ctx) {
+	sid := func(auth byte, subs ...uint32) []byte {
+		b := []byte{1, byte(len(subs)), 0, 0, 0, 0, 0, auth}
+		for _, s := range subs {
+			b = append(b, byte(s), byte(s>>8), byte(s>>16), byte(s>>24))
+		}
+		return b
+	}
+	in := [][]byte{sid(5, 18), sid(5, 19), sid(1, 0), sid(5, 21, 1, 2, 3, 500), sid(5, 21, 1, 2, 3, 501), sid(5, 21, 1, 2, 3, 1013), sid(5, 32, 544), sid(5)}
+	purity.Check(c, "C16/history/ParseSIDFromBytes", "ldap.ParseSIDFromBytes", in, func(b []byte) [][]byte { return [][]byte{[]byte(ldap.ParseSIDFromBytes(b))} })
+	dn := [][]byte{[]byte("CN=a,DC=corp,DC=example"), []byte("CN=b,DC=corp,DC=example"), []byte("DC=x"), []byte("CN=q"), []byte("")}
+	purity.Check(c, "C16/history/GetDomainFromDistinguishedName", "ldap.GetDomainFromDistinguishedName", dn, func(b []byte) [][]byte { return [][]byte{[]byte(ldap.GetDomainFromDistinguishedName(string(b)))} })
 }
 
 func countClass(n int) string {
